@@ -360,7 +360,9 @@ func SmallString() *rapid.Generator[string] {
 func genTime() *rapid.Generator[time.Time] {
 	return rapid.Custom(func(t *rapid.T) time.Time {
 		year := rapid.OneOf(rapid.SampledFrom([]int{2, 1677, 1678, 1969, 1970, 2023, 2262, 2263, 9998}), rapid.IntRange(2, 9998)).Draw(t, "year")
-		nsec := rapid.SampledFrom([]int{0, 1, 999999999, 500000000, 123456789, 120000000}).Draw(t, "nsec")
+		// fractions: none, every count of trailing zeros (formats that trim them, and formats that must not), anything
+		nsec := rapid.OneOf(rapid.SampledFrom([]int{0, 1, 999999999, 500000000, 123456789, 120000000, 10, 100, 1000, 10000, 100000, 1000000, 10000000, 100000000,
+			999999000, 999000000, 1001, 999999, 1000001, 99999999}), rapid.IntRange(0, 999999999)).Draw(t, "nsec")
 		// every whole-minute offset a zone may have, among them the ones west of Greenwich by less than an hour (-00:30:
 		// the sign is not that of the hour part) and the half- and quarter-hour zones
 		offMin := rapid.OneOf(rapid.SampledFrom([]int{0, 0, 60, -60, 330, 345, -720, 840, 1, -1, -30, -59, 30, -210, -570, 765, -61}), rapid.IntRange(-14*60, 14*60)).Draw(t, "zoneMinutes")
@@ -368,7 +370,9 @@ func genTime() *rapid.Generator[time.Time] {
 		if offMin != 0 || rapid.Bool().Draw(t, "fixedZone") {
 			loc = time.FixedZone("", offMin*60)
 		}
-		return time.Date(year, time.Month(rapid.IntRange(1, 12).Draw(t, "month")), rapid.IntRange(1, 28).Draw(t, "day"),
+		month := time.Month(rapid.IntRange(1, 12).Draw(t, "month"))
+		lastDay := time.Date(year, month+1, 0, 0, 0, 0, 0, time.UTC).Day() // 28..31; the 29th of February in leap years
+		return time.Date(year, month, rapid.OneOf(rapid.Just(lastDay), rapid.IntRange(1, lastDay)).Draw(t, "day"),
 			rapid.IntRange(0, 23).Draw(t, "hour"), rapid.IntRange(0, 59).Draw(t, "min"), rapid.IntRange(0, 59).Draw(t, "sec"), nsec, loc)
 	})
 }
@@ -424,7 +428,11 @@ func genLeaf(o GenOpts) *rapid.Generator[Node] {
 			n.U = rapid.OneOf(rapid.SampledFrom([]uint64{0, 1, math.MaxUint64, 1 << 63, 1<<53 + 1}), rapid.Uint64(),
 				rapid.Custom(func(t *rapid.T) uint64 { return uint64(BoundaryInt64().Draw(t, "b")) })).Draw(t, "u")
 		case KFloat:
-			n.F = rapid.OneOf(rapid.SampledFrom([]float64{0, math.Copysign(0, -1), 5e-324, 1e308, -1e308, math.NaN(), math.Inf(1), math.Inf(-1), 0.1, 1e21, 1e-7, 123456789}), rapid.Float64()).Draw(t, "f")
+			n.F = rapid.OneOf(rapid.SampledFrom([]float64{0, math.Copysign(0, -1), 5e-324, 1e308, -1e308, math.NaN(), math.Inf(1), math.Inf(-1), 0.1, 1e21, 1e-7, 123456789,
+				// where number formats change their mind: exponent or not, integral or not, the last exact integer
+				1e20, 999999999999999900000, 1.0000000000000001e21, 1e-6, 9.999999e-7, 1, -1, 10, 100, 1000, 1e6, 1e15, 9007199254740992, 9007199254740994, -9007199254740993,
+				0.5, 0.25, 1.5, float64(float32(0.1)), math.MaxFloat64, math.SmallestNonzeroFloat64, math.MaxInt64, math.MinInt64, 4294967296, 2147483648, 1e100, 1e-100, 2.2250738585072014e-308}),
+				rapid.Float64(), rapid.Map(rapid.IntRange(-100000, 100000), func(i int) float64 { return float64(i) / 100 })).Draw(t, "f")
 		case KBool:
 			n.B = rapid.Bool().Draw(t, "b")
 		case KDuration:
